@@ -112,9 +112,14 @@ func ExtractIndexNames(path string) ([]string, []string) {
 	indexValues := make([]string, 0)
 	jsonMatches := rOnIndex.FindAllStringSubmatch(path, -1)
 	for _, m := range jsonMatches {
-		idxName := m[1][1:strings.LastIndex(m[1], "=")]
+		eq := strings.LastIndex(m[1], "=")
+		if eq < 1 {
+			// a bracket group without '=' ("[x]") is not a key: it names no index
+			continue
+		}
+		idxName := m[1][1:eq]
 		indexNames = append(indexNames, idxName)
-		idxValue := m[1][strings.LastIndex(m[1], "=")+1 : len(m[1])-1]
+		idxValue := m[1][eq+1 : len(m[1])-1]
 		indexValues = append(indexValues, idxValue)
 	}
 	return indexNames, indexValues
@@ -135,6 +140,10 @@ func FindPathFromModel(path string, rwPaths ReadWritePathMap, exact bool) (bool,
 
 	if strings.HasSuffix(path, "]") { //Ends with index
 		indices, _ := ExtractIndexNames(path)
+		if len(indices) == 0 {
+			// the text ends with ']' without holding any [key=value] group (element names such as "a]" or "a[x]")
+			return false, nil, errors.NewInvalid("path %s ends with ']' but has no [key=value] group", path)
+		}
 		// Add on the last index
 		searchPathNoIndices = fmt.Sprintf("%s/%s", searchPathNoIndices, indices[len(indices)-1])
 	}
